@@ -21,7 +21,7 @@ def run_config(chk, tier, cfgname):
     nr = typestate.apply(chk, "root-paths", "root_paths", aspects=("safety", "panic"))
     paths = {r.pre["path"] for r in T.get("adopt")} | {r.pre["path"] for r in T.get("root_paths")
                                                        if r.pre["path"] in ("Arena::mutate_root", "Arena::map_root", "Arena::try_map_root")}
-    chk.floor("adoption-path-instances", len(paths), 11)
+    chk.floor("adoption-path-instances", len(paths), 8)
     typestate.report_automaton(chk, ["PANIC", "S7", "S2"])
 
 
